@@ -43,8 +43,8 @@ PER_FILE = {"src/simd/x86/sse_ops.c": ["-msse4.2"],
             "src/simd/x86/avx512_ops.c": ["-mavx512f", "-mavx512bw", "-mavx512vl"]}
 LINK_LIBS = ["-lzstd", "-lz", "-lm"]
 if COV:
-    SAN_FLAGS = SAN_FLAGS + ["--coverage"]
-    PLAIN_FLAGS = PLAIN_FLAGS + ["--coverage"]
+    SAN_FLAGS = SAN_FLAGS + ["--coverage", "-DVERIF_COV"]      # drivers: call __gcov_dump() before _exit under VERIF_COV
+    PLAIN_FLAGS = PLAIN_FLAGS + ["--coverage", "-DVERIF_COV"]
 
 
 def log(*a):
